@@ -14,6 +14,8 @@ def run(ctx):
     for k, cfg in enumerate(cases):
         jobs.append(dict(cfg=cfg))
         jobs.append(dict(cfg=cfg, construction="yaml", yaml_order="reversed", debug=(k % 2 == 0)))
+        if k % 3 == 1:      # models that are callables without a __name__ (functools.partial, callable objects)
+            jobs.append(dict(cfg=cfg, extra={"callable": ("partial", "object")[k % 2]}, construction=("python", "yaml")[(k // 3) % 2]))
         if k % 2 == 0:      # the command-line entry point pyxel.run(<file>), with and without an outputs section
             jobs.append(dict(cfg=cfg, construction="run-file", extra={"with_outputs": k % 4 == 0}))
     traces = P.record(jobs)
